@@ -166,6 +166,11 @@ type Sess struct {
 	// FailFirstNext makes the next call of the pre-VM function fail (fault injection); FirstFailed counts them.
 	FailFirstNext bool
 	FirstFailed   int
+	// BlockFirstNext (non-empty) makes the next call of the pre-VM function turn the request away: it
+	// returns this text together with TERMINATE (an account that is barred, a service window that is
+	// closed). FirstBlocked counts them.
+	BlockFirstNext string
+	FirstBlocked   int
 	PosLog        []Pos // position after every request
 }
 
@@ -425,6 +430,13 @@ func (s *Sess) firstFunc(ctx context.Context, sym string, input []byte) (resourc
 		s.FailFirstNext = false
 		s.FirstFailed++
 		return resource.Result{}, fmt.Errorf("injected failure of the pre-VM function")
+	}
+	if s.BlockFirstNext != "" {
+		c := s.BlockFirstNext
+		s.BlockFirstNext = ""
+		s.FirstBlocked++
+		s.W.Fired["first_func_blocks_request"]++
+		return resource.Result{Content: c, FlagSet: []uint32{state.FLAG_TERMINATE}}, nil
 	}
 	switch s.W.Cfg.FirstContent {
 	case "":
